@@ -279,6 +279,7 @@ def correspondence(R, ctx):
         items.append(dict(coq=coq, impl=impl, input=inp))
     bad = C.exact_corr(R, 'Z-exact', HEADER_Z, items, chunk=30, distribution=dist)
     bad += float_stream(R, ctx, tn)
+    bad += reals_exact_stream(R, ctx, tn)
     return bad
 
 
@@ -385,6 +386,225 @@ def float_stream(R, ctx, tn):
                        distribution=dict(kinds=kinds), first_mismatches=bad[:3]))
     if meta:
         R.samples.append(dict(stream='float', input=meta[0][0], impl=meta[0][1]))
+    return bad
+
+
+HEADER_Q = """From Coq Require Import List ZArith QArith Qcanon.
+From TV Require Import Num.Ops Lin.Tab TT.Chain Model.ActOne Model.ActOneX Model.Interface Model.ActOneR.
+Import ListNotations. Open Scope Z_scope.
+Definition c := @mk_core Qc.
+Definition cz := @mk_core Z.
+Definition q (z : Z) : Qc := Q2Qc (inject_Z z).
+Definition sq (x : Qc) : Z * Z := (Qnum (this x), Zpos (Qden (this x))).
+Definition shq (l : list Qc) : list (Z * Z) := map sq l.
+Definition zz (l : list Z) : list (Z * Z) := map (fun z => (z, 1)) l.
+"""
+
+PYTH = [(3, 4), (4, 3), (5, 12), (8, 15), (6, 8), (0, 1), (2, 0), (1, 2, 2), (2, 3, 6), (4, 4, 7), (1, 4, 8), (2, 4, 4),
+        (0, 0, 5), (1, 1, 1, 1), (2, 2, 2, 2), (1, 2, 2, 4), (7,), (1,)]
+
+
+def is_square(v):
+    return v >= 0 and math.isqrt(v) ** 2 == v
+
+
+def qleaf(x):
+    return f'(q {C.zlit(int(x))})'
+
+
+def coq_tt_with(Y, leaf, ctor):
+    return '[' + '; '.join(f'({ctor} {G.shape[0]} {G.shape[1]} {G.shape[2]} {C.nested(G.tolist(), leaf)})' for G in Y) + ']'
+
+
+def pyth_tt(rng, d):
+    """rank-1 tensor whose cores are Pythagorean vectors: its Frobenius norm is the integer prod ||g_k||"""
+    vs = [list(rng.choice(PYTH)) for _ in range(d)]
+    vs = [[x * rng.choice([1, -1]) for x in v] for v in vs]
+    return [np.array(v, dtype=float).reshape(1, -1, 1) for v in vs], math.prod(math.isqrt(sum(x * x for x in v)) for v in vs)
+
+
+def reals_exact_stream(R, ctx, tn):
+    """The clauses proved at the reals (norm, accuracy, accuracy_on_data, erank, uniform mean, normalised interfaces),
+    executed at the EXACT instances of the same model terms (Z, Qc) on inputs where sqrt / division are exact in binary64:
+    the implementation must return the correctly rounded exact value (erank, accuracy_on_data, norm, mean, natural
+    interface: equality) or agree to 1e-12 (accuracy: stabilised arithmetic; linalg interface: one sqrt + division)."""
+    rng = ctx['rng']
+    N = 168 if not ctx['thorough'] else 1680
+    kinds = ['erank', 'norm', 'accuracy', 'acc_data', 'mean', 'iface_nat', 'iface_lin']
+    cases, meta = [], []
+    dist = dict(kinds={}, erank_family={}, d={})
+    for t in range(N):
+        kind = kinds[t % len(kinds)]
+        dist['kinds'][kind] = dist['kinds'].get(kind, 0) + 1
+        try:
+            if kind == 'erank':
+                fam = ['d2', 'uniform', 'square', 'square'][(t // len(kinds)) % 4]
+                if fam == 'd2':
+                    n, r = [rng.randint(1, 6), rng.randint(1, 6)], [1, rng.randint(1, 9), 1]
+                elif fam == 'uniform':
+                    d = rng.randint(3, 6)
+                    x = rng.randint(1, 6)
+                    n, r = [rng.randint(1, 6) for _ in range(d)], [1] + [x] * (d - 1) + [1]
+                else:
+                    for _ in range(2000):   # rank profiles whose discriminant is a perfect square: the root is rational
+                        d = rng.randint(3, 5)
+                        n = [rng.randint(1, 6) for _ in range(d)]
+                        r = [1] + [rng.randint(1, 6) for _ in range(d - 1)] + [1]
+                        sz = sum(r[k] * n[k] * r[k + 1] for k in range(d))
+                        a, b = sum(n[1:d - 1]), n[0] + n[d - 1]
+                        if is_square(b * b + 4 * a * sz) and len(set(r[1:d])) > 1:
+                            break
+                    else:
+                        fam, r = 'uniform', [1] + [2] * (d - 1) + [1]
+                dist['erank_family'][fam] = dist['erank_family'].get(fam, 0) + 1
+                Y = [np.zeros((r[k], n[k], r[k + 1])) for k in range(len(n))]
+                term = '[sq (erank OQc [' + '; '.join(f'c {r[k]} {n[k]} {r[k + 1]} []' for k in range(len(n))) + '])]'
+                inp = dict(kind=kind, family=fam, n=n, r=r)
+                impl = float(tn.erank(Y))
+                cases.append(term)
+                meta.append((inp, impl, 'round'))
+                continue
+            d = rng.choice([2, 2, 3, 3, 4, 5])
+            dist['d'][d] = dist['d'].get(d, 0) + 1
+            n = [rng.randint(1, 4) for _ in range(d)]
+            r1, r2 = rand_profile(rng, d, 3), rand_profile(rng, d, 3)
+            Y1, Y2 = rand_int_tt(rng, n, r1, -4, 4), rand_int_tt(rng, n, r2, -4, 4)
+            inp = dict(kind=kind, n=n, r1=r1, r2=r2, Y1=[G.tolist() for G in Y1], Y2=[G.tolist() for G in Y2])
+            if kind == 'norm':
+                sub = (t // len(kinds)) % 3
+                if sub == 1:
+                    Y1, _ = pyth_tt(rng, d)
+                    inp = dict(kind=kind, family='pythagorean rank-1', Y1=[G.tolist() for G in Y1])
+                elif sub == 2 and rng.random() < 0.3:
+                    Y1 = [np.zeros_like(G) for G in Y1]
+                    inp = dict(kind=kind, family='zero', n=n, r1=r1)
+                y1 = coq_tt_with(Y1, ileaf, 'cz')
+                cases.append(f'zz [mul_scalar_x OZ {y1} {y1}; norm OZ {y1}]')
+                meta.append((inp, float(tn.norm(Y1)), 'norm'))
+            elif kind == 'accuracy':
+                sub = (t // len(kinds)) % 3
+                if sub == 0:      # Y1 = k * Y2 with ||Y2|| an integer: accuracy = |k - 1| exactly, all sqrt exact over Qc
+                    Y2, _ = pyth_tt(rng, d)
+                    k = rng.choice([-3, -2, -1, 0, 1, 2, 3, 5])
+                    Y1 = [G.copy() for G in Y2]
+                    Y1[rng.randrange(d)] *= k
+                    inp = dict(kind=kind, family='multiple of a pythagorean rank-1 tensor', k=k, Y2=[G.tolist() for G in Y2])
+                    cases.append(f'[sq (accuracy OQc {coq_tt_with(Y1, qleaf, "c")} {coq_tt_with(Y2, qleaf, "c")})]')
+                    meta.append((inp, float(tn.accuracy(Y1, Y2)), 'acc_q'))
+                else:
+                    if sub == 2 and rng.random() < 0.3:
+                        Y1 = [G.copy() for G in Y2]
+                        inp['family'] = 'Y1 == Y2'
+                    y1, y2 = coq_tt_with(Y1, ileaf, 'cz'), coq_tt_with(Y2, ileaf, 'cz')
+                    cases.append(f'zz [mul_scalar_x OZ (sub OZ {y1} {y2}) (sub OZ {y1} {y2}); mul_scalar_x OZ {y2} {y2}]')
+                    meta.append((inp, float(tn.accuracy(Y1, Y2)), 'acc_z'))
+            elif kind == 'acc_data':
+                D1 = dense_int(Y1)
+                found = None
+                for _ in range(300):
+                    m = rng.randint(1, 4)
+                    I = [[rng.randrange(k) for k in n] for _ in range(m)]
+                    g = [int(D1[tuple(i)]) for i in I]
+                    qs = [p for p in PYTH if len(p) == m] + [tuple([0] * m)]
+                    qv = list(rng.choice(qs))
+                    rng.shuffle(qv)
+                    qv = [x * rng.choice([1, -1]) * 1 for x in qv]
+                    y = [gi - qi for gi, qi in zip(g, qv)]
+                    if is_square(sum(v * v for v in y)):
+                        found = (I, y)
+                        break
+                if found is None or (t // len(kinds)) % 5 == 4:
+                    I = [[rng.randrange(k) for k in n] for _ in range(rng.randint(1, 4))]
+                    y = [0] * len(I)          # all reference values zero: the documented sentinel -1
+                else:
+                    I, y = found
+                inp['I'], inp['y'] = I, y
+                cases.append(f'[sq (accuracy_on_data OQc {coq_tt_with(Y1, qleaf, "c")} '
+                             f'[{"; ".join(C.natlist(i) for i in I)}] [{"; ".join(qleaf(v) for v in y)}])]')
+                meta.append((inp, float(tn.accuracy_on_data(Y1, np.array(I), np.array(y, dtype=float))), 'round'))
+            elif kind == 'mean':
+                n = [rng.choice([1, 2, 2, 4, 8]) for _ in range(d)]     # ones(k)/k is exact in binary64
+                Y1 = rand_int_tt(rng, n, r1, -4, 4)
+                inp = dict(kind=kind, n=n, r1=r1, Y1=[G.tolist() for G in Y1])
+                cases.append(f'[sq (mean OQc {coq_tt_with(Y1, qleaf, "c")} None true)]')
+                meta.append((inp, [float(tn.mean(Y1))], 'exactq'))
+            elif kind in ('iface_nat', 'iface_lin'):
+                if kind == 'iface_nat':
+                    n = [rng.choice([1, 2, 2, 4]) for _ in range(d)]     # division by the mode size is exact in binary64
+                Y1 = rand_int_tt(rng, n, r1, -3, 3)
+                ltr = rng.random() < 0.5
+                P = [[rng.randint(-2, 2) for _ in range(k)] for k in n] if rng.random() < 0.4 else None
+                idx = [rng.randrange(k) for k in n] if rng.random() < 0.7 else None
+                inp = dict(kind=kind, n=n, r1=r1, Y1=[G.tolist() for G in Y1], P=P, idx=idx, ltr=ltr)
+                phi = tn.interface(Y1, P=None if P is None else [np.array(p, dtype=float) for p in P],
+                                   i=None if idx is None else np.array(idx), norm='natural' if kind == 'iface_nat' else 'linalg', ltr=ltr)
+                impl = [float(x) for v in phi for x in np.asarray(v).reshape(-1)]
+                ci = 'None' if idx is None else f'(Some {C.natlist(idx)})'
+                lt = 'true' if ltr else 'false'
+                if kind == 'iface_nat':
+                    cP = 'None' if P is None else f'(Some {C.nested(P, qleaf)})'
+                    cases.append(f'shq (concat (interface OQc {coq_tt_with(Y1, qleaf, "c")} {cP} {ci} NormNatural {lt}))')
+                    meta.append((inp, impl, 'exactq'))
+                else:
+                    cP = 'None' if P is None else f'(Some {C.nested(P, ileaf)})'
+                    cases.append(f'zz (concat (interface OZ {coq_tt_with(Y1, ileaf, "cz")} {cP} {ci} NormNone {lt}))')
+                    meta.append((inp, impl, ('unit', r1, ltr)))
+        except Exception as ex:
+            cases.append('zz [0]')
+            meta.append((dict(kind=kind, t=t), ['raised', repr(ex)[:300]], 'raised'))
+    vals = C.run_cases('C01_reals', HEADER_Q, cases, chunk=28)
+    bad = []
+
+    def close(x, e, tol=1e-12):
+        return math.isfinite(x) and abs(x - e) <= tol * max(abs(e), 1e-300)
+    for (inp, impl, how), mv in zip(meta, vals):
+        R.add_distinct(('reals', repr(inp)[:2000]))
+        fr = [Fraction(a, b) for a, b in mv]
+        if how == 'raised':
+            ok = False
+        elif how == 'round':          # the exact value is rational: binary64 must return its correct rounding
+            ok = impl == float(fr[0])
+        elif how == 'exactq':         # the exact value is a dyadic rational: equality as rationals
+            ok = len(impl) == len(fr) and all(math.isfinite(x) and Fraction(x) == e for x, e in zip(impl, fr))
+        elif how == 'norm':           # v = <Y,Y> exactly (an integer < 2^53): norm must be the correctly rounded sqrt(v)
+            v, mn = int(fr[0]), int(fr[1])
+            ok = impl == math.sqrt(v) and (not is_square(v) or float(mn) == impl)
+        elif how == 'acc_q':
+            ok = close(impl, float(fr[0])) or (fr[0] == 0 and impl == 0.0)
+        elif how == 'acc_z':          # ||Y1 - Y2||^2 and ||Y2||^2 from the exact model
+            d2, f2 = int(fr[0]), int(fr[1])
+            if f2 == 0:
+                ok = True             # undefined relative error: no claim (Model/ActOneR.accuracy models the plain branch)
+            else:
+                ok = (impl == 0.0) if d2 == 0 else close(impl, math.sqrt(d2) / math.sqrt(f2))
+        else:                         # linalg interface: each vector = u_k / ||u_k||, u_k from the exact model (norm=None)
+            _, r, ltr = how
+            u = [int(x) for x in fr]
+            lens = list(r) if not ltr else list(r)
+            ok = len(u) == len(impl) == sum(lens)
+            pos = 0
+            for k, L in enumerate(lens):
+                if not ok:
+                    break
+                uk, vk = u[pos:pos + L], impl[pos:pos + L]
+                pos += L
+                boundary = (k == len(lens) - 1) if not ltr else (k == 0)
+                nk = math.sqrt(sum(x * x for x in uk))
+                if boundary:
+                    ok = vk == [1.0]
+                elif nk == 0:
+                    ok = True         # 0/0 in the code: outside every claim; later vectors are NaN as well
+                    break
+                else:
+                    ok = all(math.isfinite(x) and abs(x - e / nk) <= 1e-12 for x, e in zip(vk, uk))
+        if not ok:
+            bad.append(dict(stream='reals-exact', input=inp, impl=impl, model=[[int(a), int(b)] for a, b in mv]))
+    R.corr.append(dict(name='reals-exact', cases=len(cases), mismatches=len(bad),
+                       comparison='Z / Qc instances of norm, accuracy, accuracy_on_data, erank, mean, interface on inputs where '
+                                  'sqrt and division are exact: equality with the correctly rounded exact value (erank incl. '
+                                  'non-uniform profiles with rational root, accuracy_on_data incl. the -1 sentinel, norm, uniform '
+                                  'mean, natural interface); 1e-12 for accuracy and for linalg interface vs u_k/||u_k||',
+                       distribution=dist, first_mismatches=bad[:3]))
     return bad
 
 
